@@ -1,5 +1,74 @@
-Require Import V.Lib.Base V.C09.Model.
+(* C09 - Buffered input is transparent.  Property theorems only; proofs are in C09/Proofs*.v. *)
+Require Import V.Lib.Base V.Gen.Consts V.C09.Spec V.C09.Model V.C09.ARun V.C09.Proofs4.
 Local Open Scope Z_scope.
-Example c09_smoke : run 4 [97;98;99;100;101;102] [OGet; OGet; OGet; OGet; OGet; OPeek] = [97;98;99;100;101;102;1;0;0].
+
+(* The buffered implementation model, at ANY buffer size N >= 2, produces for every NUL-free input
+   and every operation list (tokens NUL-free and no longer than the buffer; unget only directly
+   after an extracting operation, which is what "Some obs" of the specification run encodes)
+   exactly the observations of the plain byte-list specification: every peek/get/match/int/copy
+   result, every line() and end() answer, the final line number and end flag, and no fault
+   (no read outside the filled part of the buffer, no fuel exhaustion). *)
+Theorem c09_refines : forall (N : nat) input ops obs,
+  (2 <= N)%nat -> nul_free input -> Forall (tok_ok N) ops ->
+  a_run input ops = Some obs -> run N input ops = obs.
+Proof. intros N input ops obs HN. exact (refines N HN input ops obs). Qed.
+Print Assumptions c09_refines.
+
+(* "None of this depends on ... where the buffer boundaries fall": any two buffer sizes agree. *)
+Theorem c09_transparent : forall N1 N2 input ops obs,
+  (2 <= N1)%nat -> (2 <= N2)%nat -> nul_free input ->
+  Forall (tok_ok N1) ops -> Forall (tok_ok N2) ops ->
+  a_run input ops = Some obs ->
+  run N1 input ops = obs /\ run N2 input ops = obs.
+Proof. exact transparent. Qed.
+Print Assumptions c09_transparent.
+
+(* The shipped buffer size (regenerated from potassco/match_basic_types.h on every run) is covered. *)
+Theorem c09_shipped_size : forall input ops obs,
+  nul_free input -> Forall (tok_ok (Z.to_nat BUF_SIZE)) ops ->
+  a_run input ops = Some obs -> run (Z.to_nat BUF_SIZE) input ops = obs.
+Proof.
+  intros input ops obs. apply refines.
+  apply Nat2Z.inj_le. rewrite Z2Nat.id by (unfold BUF_SIZE; lia). unfold BUF_SIZE. lia.
+Qed.
+Print Assumptions c09_shipped_size.
+Theorem c09_alloc_is_buf_plus_one : ALLOC_EXTRA = 1.
+Proof. reflexivity. Qed.
+
+(* What a client observes, stated on the specification (and therefore, by c09_refines, on the
+   implementation model): a failed token match consumes nothing; a raw copy returns exactly the
+   requested bytes or all that remain, and counts the LF bytes it extracts; a run of gets leaves
+   the line number at one plus the newlines delivered (CR, LF and CRLF each delivered as one LF). *)
+Theorem c09_failed_match_consumes_nothing : forall w s,
+  fst (a_match_tok w s) = false -> snd (a_match_tok w s) = s.
+Proof. exact a_match_fail_consumes_nothing. Qed.
+Print Assumptions c09_failed_match_consumes_nothing.
+
+Theorem c09_copy_exact : forall k s, 0 <= k ->
+  let '(n, bs, s') := a_copy k s in
+  bs = firstn (Z.to_nat k) (rest s) /\ n = Z.of_nat (length bs) /\
+  n = Z.min k (Z.of_nat (length (rest s))) /\ rest s = bs ++ rest s' /\ aline s' = aline s + count_eq 10 bs.
+Proof. exact a_copy_exact. Qed.
+Print Assumptions c09_copy_exact.
+
+Theorem c09_line_counts_delivered_newlines : forall n input outs s',
+  a_run_ops (a_init input) false (repeat OGet n) = Some (outs, s') -> aline s' = 1 + count_eq 10 outs.
+Proof. intros n input outs s' H. apply (a_gets_line n _ _ _ _ H). Qed.
+Print Assumptions c09_line_counts_delivered_newlines.
+
+(* ---- non-vacuity: concrete runs that satisfy the hypotheses and straddle refills ---- *)
+Definition ex_input : list Z := [97;98;13;10;49;50;51;52;53;32;120;121;122;10;113].
+Definition ex_ops : list op :=
+  [OGet; OGet; OUnget 98; OGet; OGet; OLine; OInt false; OSkipWs; OMatch [120;121;123]; OMatch [120;121;122];
+   OPeek; OCopy 5; OLine; OEnd].
+Example c09_spec_run_defined :
+  a_run ex_input ex_ops = Some [97;98;1;98;10;2;1;12345;0;1;10;2;10;113;3;1;3;1;0].
 Proof. vm_compute. reflexivity. Qed.
-Print Assumptions c09_smoke.
+Example c09_hyps_hold : nul_free ex_input /\ Forall (tok_ok 3) ex_ops /\ Forall (tok_ok 16) ex_ops.
+Proof.
+  split; [repeat constructor; discriminate|].
+  split; repeat constructor; cbn; try discriminate; try lia.
+Qed.
+Example c09_same_at_3_4_16 :
+  run 3 ex_input ex_ops = run 16 ex_input ex_ops /\ run 4 ex_input ex_ops = run 16 ex_input ex_ops.
+Proof. vm_compute. split; reflexivity. Qed.
